@@ -676,6 +676,7 @@ func c03Worker(ctx *core.Ctx) *core.Result {
 	// targets made of IPv4 + IPv6 + raw parts for two vsys (shared with C18):
 	// the device must reach the effective, merged target
 	(&c18{ctx: ctx, res: x.res, sc: x.sc, prop: "C03"}).runPanosMulti()
+	c03Wire(ctx, x.res)
 	return x.res
 }
 
